@@ -612,3 +612,293 @@ def spec_df_from_list(I, input_list, start_date=None, pint_unit=None):
 
 
 REPO_SPECS[QN_DF_FROM_LIST] = spec_df_from_list
+
+
+# =====================================================================================================================
+# UsageJourney / UsagePattern
+# =====================================================================================================================
+def equiv_maybe_q(I, got, is_empty, phys, dim, name):
+    eng = I.eng
+    if isinstance(got, ExplU): got = I.resolve(got)
+    if got.kind == "empty":
+        eng.oblige(f"{name}/result is Empty only when the specification is", is_empty); return
+    eng.oblige(f"{name}/result is Empty when the specification is", z3.Not(is_empty))
+    if got.kind != "eq": eng.oblige(f"{name}/result kind", False); return
+    eng.oblige(f"{name}/dimension", got.value.unit.dim == dim)
+    eng.oblige(f"{name}/value", z3.Implies(z3.Not(is_empty), got.value.phys == phys))
+
+
+def _post_duration(I, g, res, qual):
+    steps = g.lst("uj_steps")
+    fq = FoldQ(I, "duration", lambda j: G(I, steps.elem(j)).q("user_time_spent"))
+    equiv_maybe_q(I, res, steps.n == 0, fq.at(steps.n), W.TIME, qual)
+
+
+def _duration_inv(I, owner, value):
+    v = value.nonempty if isinstance(value, ExplU) else value
+    I.eng.assume(v.value.phys >= 0)
+
+
+ATTR_INV[("UsageJourney", "duration")] = _duration_inv
+
+
+def _post_duration(I, g, res, qual, _base=_post_duration):
+    _base(I, g, res, qual)
+    steps = g.lst("uj_steps")
+    fq = FoldQ(I, "duration", lambda j: G(I, steps.elem(j)).q("user_time_spent"))
+    induct(I, "a sum of non-negative durations is non-negative", lambda k: fq.at(k) >= 0, steps.n)
+    r = I.resolve(res) if isinstance(res, ExplU) else res
+    if r.kind == "eq": I.eng.oblige(f"{qual}/invariant: duration >= 0", r.value.phys >= 0)
+
+
+@update("UsageJourney", "update_duration", post=_post_duration, kind="E|Q")
+def uj_duration(I, g):
+    """duration = sum of the steps' user_time_spent (Empty for a journey without steps)"""
+    return None
+
+
+def _par(I, g):
+    return g.mv("nb_usage_journeys_in_parallel")
+
+
+def _post_parallel(I, g, res, qual):
+    """journeys in parallel = avg(utc starts, journey duration): C03 conservation starts x duration"""
+    utc = g.raw("utc_hourly_usage_journey_starts")
+    dur = G(I, g.raw("usage_journey")).raw("duration")
+    I.phase = "spec"
+    want = spec_avg(I, utc, dur)
+    I.phase = "body"
+    from .model_verify import equiv_mv
+    equiv_mv(I, res, mv_of(want), qual)
+
+
+@update("UsagePattern", "update_nb_usage_journeys_in_parallel", post=_post_parallel)
+def up_parallel(I, g):
+    return None
+
+
+def _devices_power(I, g):
+    dev = g.lst("devices")
+    return FoldQ(I, "devices power", lambda j: G(I, dev.elem(j)).q("power")), dev
+
+
+@update("UsagePattern", "update_devices_energy")
+def up_dev_energy(I, g):
+    """devE(t) = par(t) * (sum of device powers) * 1h   (C12: proportional to device power; C03: starts x duration)"""
+    fq, dev = _devices_power(I, g)
+    I.require("a usage pattern has at least one device", dev.n >= 1)
+    return mv_scale(_par(I, g), fq.at(dev.n) * HOUR_S, W.ENERGY)
+
+
+@update("UsagePattern", "update_devices_energy_footprint")
+def up_dev_ef(I, g):
+    """device energy footprint = device energy x carbon intensity of the usage pattern's country"""
+    return mv_scale(g.mv("devices_energy"), G(I, g.raw("country")).q("average_carbon_intensity"), W.MASS)
+
+
+def _devices_hook(I, owner, lst):
+    """input invariant (precondition; validation accepts 0, which then raises ZeroDivisionError): every device has a
+    non-zero lifespan and fraction of usage time"""
+    def facts(I_, o):
+        d = G(I_, o)
+        I_.eng.assume(z3.And(d.q("lifespan") != 0, d.q("fraction_of_usage_time") != 0))
+    lst.elem_facts = facts
+
+
+def _dev_fab_fold(I, g):
+    dev = g.lst("devices")
+    def term(j):
+        d = G(I, dev.elem(j))
+        return d.q("carbon_footprint_fabrication") * HOUR_S / (d.q("lifespan") * d.q("fraction_of_usage_time"))
+    return FoldQ(I, "devices fabrication per hour", term), dev
+
+
+def _dev_fab_loops():
+    def loop0(ctx):
+        I = ctx.interp
+        g = G(I, ctx.env["self"])
+        fq, dev = _dev_fab_fold(I, g)
+        def view(i):
+            unit = Unit(W.MASS, z3.Real("devfab.unit")); I.eng.assume(unit.f > 0)
+            e = Expl("eq", Qty(fq.at(i), unit), Label(False))
+            return {"devices_fabrication_footprint_over_one_hour": ExplU(i <= 0, e)}
+        return view
+    return {0: loop0}
+
+
+@update("UsagePattern", "update_devices_fabrication_footprint", loops=lambda I, g: _dev_fab_loops())
+def up_dev_fab(I, g):
+    """devFab(t) = par(t) * sum_dev cff_dev * 1h / (lifespan_dev * fraction_of_usage_time_dev)   (C12)"""
+    fq, dev = _dev_fab_fold(I, g)
+    par = _par(I, g)
+    return MV(z3.Or(par.is_empty, dev.n <= 0), mv_scale(par, fq.at(dev.n)).vec, W.MASS)
+
+
+@update("UsagePattern", "update_energy_footprint")
+def up_ef(I, g):
+    return g.mv("devices_energy_footprint")
+
+
+@update("UsagePattern", "update_instances_fabrication_footprint")
+def up_fab(I, g):
+    return g.mv("devices_fabrication_footprint")
+
+
+# =====================================================================================================================
+# JobBase  (C03)
+# =====================================================================================================================
+def occ_ghosts(I, job, up):
+    """ghost specification of the occurrences of `job` in usage pattern `up`:
+       occ(t) = sum over steps i, over positions j of step i holding this job, of utc_starts(t - floor(delay_i) hours),
+       delay_i = sum of the user_time_spent of the steps before i"""
+    key = ("occ_ghosts", job.name, up.name)
+    if key in I.eng.run.cache: return I.eng.run.cache[key]
+    gup = G(I, up)
+    steps = gup.obj("usage_journey").lst("uj_steps")
+    utc = gup.mv("utc_hourly_usage_journey_starts")
+    delay = FoldQ(I, "delay", lambda i: G(I, steps.elem(i)).q("user_time_spent"))
+    sh = lambda i: floor_i(delay.at(i) / HOUR_S)
+    def jobs_of(i): return I.model_getattr(steps.elem(i), "jobs")
+    def isme(i, j): return I.world.model_eq(I, job, jobs_of(i).elem(j))
+    def inner(i):
+        return FoldMV(I, f"occ.inner[{job.name},{up.name}]", lambda j: MV(z3.Or(utc.is_empty, z3.Not(isme(i, j))), mv_shift(utc, sh(i)).vec, DIMLESS),
+                      DIMLESS, params=(i,))
+    def cin(i):
+        return FoldQ(I, f"cnt.inner[{job.name},{up.name}]", lambda j: z3.If(isme(i, j), z3.RealVal(1), z3.RealVal(0)), params=(i,))
+    outer = FoldMV(I, f"occ.outer[{job.name},{up.name}]", lambda i: inner(i).at(jobs_of(i).n), DIMLESS, params=(z3.IntVal(0),))
+    cout = FoldQ(I, f"cnt.outer[{job.name},{up.name}]", lambda i: cin(i).at(jobs_of(i).n), params=(z3.IntVal(0),))
+    r = dict(steps=steps, utc=utc, delay=delay, sh=sh, jobs_of=jobs_of, inner=inner, cin=cin, outer=outer, cout=cout)
+    I.eng.run.cache[key] = r
+    return r
+
+
+def _occ_loops():
+    def loop0(ctx):
+        I = ctx.interp
+        gh = occ_ghosts(I, ctx.env["self"], ctx.env["usage_pattern"])
+        utc = gh["utc"]
+        def view(i):
+            f = gh["outer"].at(i)
+            unit = Unit(W.TIME, z3.Real("delay.unit")); I.eng.assume(unit.f > 0)
+            d = ExplU(i <= 0, Expl("eq", Qty(gh["delay"].at(i), unit), Label(True, "delay")))
+            lem = [z3.Implies(z3.Not(utc.is_empty), f.vec.total == gh["cout"].at(i) * utc.vec.total),
+                   z3.Implies(utc.is_empty, f.is_empty), gh["delay"].at(i) >= 0]
+            return {"job_occurrences": mv_to_explu(f), "delay_between_uj_start_and_job_evt": d, "__lemma__": lem}
+        return view
+    def loop1(ctx):
+        I = ctx.interp
+        gh = occ_ghosts(I, ctx.env["self"], ctx.env["usage_pattern"])
+        utc = gh["utc"]
+        i = ctx.env["uj_step"].index
+        def view(j):
+            f = mv_add(gh["outer"].at(i), gh["inner"](i).at(j))
+            lem = [z3.Implies(z3.Not(utc.is_empty), gh["inner"](i).at(j).total0 == gh["cin"](i).at(j) * utc.vec.total),
+                   z3.Implies(utc.is_empty, gh["inner"](i).at(j).is_empty)]
+            return {"job_occurrences": mv_to_explu(f), "__lemma__": lem}
+        return view
+    return {0: loop0, 1: loop1}
+
+
+def _post_occ(I, g, res, qual):
+    from .model_verify import equiv_mv
+    up = I.eng.run.cache["arg:usage_pattern"]
+    gh = occ_ghosts(I, g.o, up)
+    n = gh["steps"].n
+    f = gh["outer"].at(n)
+    equiv_mv(I, res, f, qual)
+    r = I.resolve(res) if isinstance(res, ExplU) else res
+    if r.kind == "ehq":
+        I.eng.oblige(f"{qual}/C03: total occurrences = journey starts x number of appearances of the job in the journey",
+                     r.value.vec.total == gh["cout"].at(n) * gh["utc"].vec.total)
+    I.eng.oblige(f"{qual}/label", r.label.nonempty)
+
+
+@concrete("Job")
+@update("JobBase", "compute_hourly_occurrences_for_usage_pattern", attr="", post=_post_occ, loops=lambda I, g: _occ_loops())
+def job_occ(I, g):
+    return None
+
+
+def _dx_fold(I, job, up, kind):
+    g = G(I, job)
+    occ = mv_of(I.model_getattr(job, "hourly_occurrences_per_usage_pattern").get(I, up))
+    X = g.q(kind)
+    F = ceil_i(g.q("request_duration") / HOUR_S)
+    per_hour = X / z3.ToReal(F)
+    fold = FoldMV(I, f"dx[{kind}]", lambda k: mv_scale(mv_shift(occ, k), per_hour), DIMLESS)
+    return fold, occ, X, F, per_hour
+
+
+def _dx_loops():
+    def loop0(ctx):
+        I = ctx.interp
+        fold, occ, X, F, ph = _dx_fold(I, ctx.env["self"], ctx.env["usage_pattern"], ctx.env["data_exchange_type"])
+        def view(i):
+            f = fold.at(i)
+            lem = [z3.Implies(z3.And(i >= 0, z3.Not(occ.is_empty)), f.vec.total == z3.ToReal(i) * ph * occ.vec.total),
+                   z3.Implies(z3.And(i >= 1, z3.Not(occ.is_empty)), z3.Not(f.is_empty)),
+                   z3.Implies(occ.is_empty, f.is_empty)]
+            return {"hourly_data_exchange": mv_to_explu(f), "__lemma__": lem}
+        return view
+    return {0: loop0}
+
+
+def _mk_dx(kind):
+    def post(I, g, res, qual):
+        from .model_verify import equiv_mv
+        up = I.eng.run.cache["arg:usage_pattern"]
+        fold, occ, X, F, ph = _dx_fold(I, g.o, up, kind)
+        equiv_mv(I, res, fold.at(F), qual)
+        r = I.resolve(res) if isinstance(res, ExplU) else res
+        if r.kind == "ehq":
+            I.eng.oblige(f"{qual}/C03: total {kind} = occurrences x per-request amount",
+                         z3.Implies(z3.Not(occ.is_empty), r.value.vec.total == X * occ.vec.total))
+        I.eng.oblige(f"{qual}/label", r.label.nonempty)
+    @concrete("Job")
+    @update("JobBase", "compute_hourly_data_exchange_for_usage_pattern", attr="", post=post, loops=lambda I, g: _dx_loops())
+    def job_dx(I, g):
+        """dX(t) = sum_{k < F} occ(t - k) * X / F,  F = ceil(request duration in hours)  (precondition: request duration > 0)"""
+        I.require("request duration is positive (C03: 'from sub-second')", g.q("request_duration") > 0)
+        return None
+    job_dx.extra_args = lambda I, w: [w.new_obj("UsagePattern", "up"), kind]
+    UPDATE_SPECS[("JobBase", "compute_hourly_data_exchange_for_usage_pattern", kind)] = UPDATE_SPECS.pop(("JobBase", "compute_hourly_data_exchange_for_usage_pattern"))
+    CONCRETE[("JobBase", "compute_hourly_data_exchange_for_usage_pattern", kind)] = ["Job"]
+    return job_dx
+
+
+_mk_dx("data_transferred"); _mk_dx("data_stored")
+job_occ.extra_args = lambda I, w: [w.new_obj("UsagePattern", "up")]
+
+
+def _across_loops():
+    def loop0(ctx):
+        I = ctx.interp
+        job = ctx.env["self"]; name = ctx.env["calculated_attribute_name"]
+        ups = I.model_getattr(job, "usage_patterns")
+        d = I.model_getattr(job, name)
+        fold = FoldMV(I, f"across[{name}]", lambda j: mv_of(d.get(I, ups.elem(j))), DIMLESS)
+        def view(i): return {"hourly_calc_attr_summed_across_ups": mv_to_explu(fold.at(i))}
+        view.commutative = True
+        return view
+    return {0: loop0}
+
+
+def _mk_across(name, label):
+    def post(I, g, res, qual):
+        from .model_verify import equiv_mv
+        ups = g.lst("usage_patterns")
+        d = g.raw(name)
+        fold = FoldMV(I, f"across[{name}]", lambda j: mv_of(d.get(I, ups.elem(j))), DIMLESS)
+        equiv_mv(I, res, fold.at(ups.n), qual)
+    @update("JobBase", "sum_calculated_attribute_across_usage_patterns", attr="", post=post, loops=lambda I, g: _across_loops())
+    def f(I, g):
+        """across(t) = sum over the job's usage patterns of the per-pattern series (by timestamp, each pattern once)"""
+        return None
+    f.extra_args = lambda I, w: [name, label]
+    UPDATE_SPECS[("JobBase", "sum_calculated_attribute_across_usage_patterns", name)] = UPDATE_SPECS.pop(("JobBase", "sum_calculated_attribute_across_usage_patterns"))
+    CONCRETE[("JobBase", "sum_calculated_attribute_across_usage_patterns", name)] = ["Job"]
+
+
+for _n, _l in (("hourly_occurrences_per_usage_pattern", "occurrences"), ("hourly_avg_occurrences_per_usage_pattern", "average occurrences"),
+               ("hourly_data_transferred_per_usage_pattern", "data transferred"), ("hourly_data_stored_per_usage_pattern", "data stored")):
+    _mk_across(_n, _l)
